@@ -164,6 +164,27 @@ let encode_header (h : string list) : awheader =
       | "f32" -> WaF32 (big value) | "f64" -> WaF64 (big value) | "time" -> WaTime (big value)
       | _ -> failwith "bad attribute type" in
     WAttr (ni set, ni var, v)
+  | "free" :: v :: args ->
+    (* free <v> <fields...>: numbers in the order of the Rust struct, strings / data as hex of their bytes *)
+    let big x = n_of_dec x in
+    WFree (match v, args with
+        | "2", [key; user; pass] ->
+          F70v2 { f2_auth_key = big key; f2_user_name = unhex user; f2_password = unhex pass }
+        | "3", [time; perm; key; size; mode; mbs; rid; name] ->
+          F70v3 { f3_time = big time; f3_permissions = big perm; f3_auth_key = big key; f3_file_size = big size;
+                  f3_mode = big mode; f3_max_block_size = big mbs; f3_request_id = big rid; f3_file_name = unhex name }
+        | "4", [handle; size; mbs; rid; status; text] ->
+          F70v4 { f4_file_handle = big handle; f4_file_size = big size; f4_max_block_size = big mbs;
+                  f4_request_id = big rid; f4_status = big status; f4_text = unhex text }
+        | "5", [handle; block; data] ->
+          F70v5 { f5_file_handle = big handle; f5_block_number = big block; f5_file_data = unhex data }
+        | "6", [handle; block; status; text] ->
+          F70v6 { f6_file_handle = big handle; f6_block_number = big block; f6_status = big status; f6_text = unhex text }
+        | "7", [ty; size; time; perm; rid; name] ->
+          F70v7 { f7_file_type = big ty; f7_file_size = big size; f7_time = big time; f7_permissions = big perm;
+                  f7_request_id = big rid; f7_file_name = unhex name }
+        | "8", [spec] -> F70v8 (unhex spec)
+        | _ -> failwith "bad free-format header")
   | _ -> failwith "bad encode header"
 
 let encode_op (s : script) (o : aopts) (op : string list) : string list =
